@@ -50,6 +50,7 @@ def check(cx):
         'R13.5 the encoder appends exactly CR LF after the payload; only BufferedLineStream::flush writes to the socket, draining the buffer in order',
         'R13.6 every relay/reply template places client-chosen free text last, introduced by " :"',
         'R13.7 the relay serialiser prefixes the last parameter with " :" when it is empty or contains a space, tab or colon, and joins earlier parameters by single spaces',
+        'R13.10 the name validators accept only what can travel as a middle parameter: validate_username / validate_channel return Ok only for non-empty names without a space, comma or colon (a trailing parameter can carry all of these into a name)',
         'R13.9 offset coordinates in the parser: the length of a piece found inside the sub-slice base[a..] is used as an offset into base only with a added',
         'R13.8 the trailing parameter is split off at " :" (accepted idiom); a split at a bare \':\' necessarily misreads "X a:b c"',
     ]
@@ -357,6 +358,28 @@ def check(cx):
     sp = [e for e in apps if e.data['args'][:1] == [('lit', ' ')] and e.data['method'] == 'push']
     if len(sp) < 2:
         r7.violation('to_string_with_source|spaces', 'parameters are not joined by single spaces', loc=fts)
+
+    # ---------------------------------------------------------------- R13.10 validators vs. the framing of emitted lines
+    r10 = cx.rule('R13.10', 'names accepted by the validators are frameable as middle parameters', floor=8, kind='entailment')
+    from .C03 import cases
+    X = P('x')
+    for vname in ('validate_username', 'validate_channel'):
+        fv = cx.fn(vname)
+        wv = cx.walk(fv, args=[X], key='c13v')
+        oks = [c for c, leaf in cases(wv.retval) if isinstance(leaf, tuple) and leaf[:1] == ('ok',)]
+        if not oks:
+            raise AnchorLost('%s: no Ok leaf found' % vname)
+        okc = Or(*oks)
+        needs = [('empty', 'the empty string', Not(Atom(('empty', X))))]
+        for ch, what in ((' ', 'a space'), (',', 'a comma'), (':', 'a colon')):
+            needs.append((what.split()[-1], 'a name containing ' + what, Not(has(X, ('lit', ch)))))
+        for tag, what, goal in needs:
+            r10.instance('%s rejects %s' % (vname, what))
+            ok, m = entails(okc, goal)
+            if not ok:
+                r10.violation('%s|accepts-%s' % (vname, tag), '%s accepts %s: given as a trailing parameter it becomes a nick / channel / user name '
+                              'that the server then emits as a middle parameter, so every line naming it is re-parsed differently by its '
+                              'receiver' % (vname, what), loc=fv)
 
     # ---------------------------------------------------------------- R13.8 trailing delimiter idiom
     r8 = cx.rule('R13.8', 'trailing-parameter delimiter idiom', floor=1, kind='idiom')
